@@ -8,6 +8,8 @@ AppendLeft / AppendRight / Remove, any plugins (any name, any subset of stage in
 `V` ranges over all verdict assignments; `id` over all routes (registered or not).
 -/
 import Teleport.Lemmas.Plugin
+import Teleport.Lemmas.SrcFlow
+import Teleport.Gen.Stages
 namespace Teleport
 namespace C09
 open Plug
@@ -427,6 +429,249 @@ theorem C09_veto_caller (A B : Peer) (VA VB : Verd) (hA : ∀ n s, VA n s = 0) (
   unfold call callerWrite writeSide
   simp only [ok, ne_eq, not_true_eq_false, ↓reduceIte, hr, hi, callerRead, oks]
   simp
+
+/-! ## tie A — the call sites and the stage functions as they are in the source NOW (`Gen/Stages`)
+
+`srcfacts` regenerates, from plugin.go / session.go / context.go / peer.go, the ordered stage calls
+of every function that runs hooks (container expression, how the verdict is used, enclosing
+conditions, the switches of the context's container) and the loop shape of every stage function.
+The theorems below compare them — by evaluation — with what `Model/Plugin` does: the model is RUN
+on two probe configurations and its hook firings are read off, nothing is restated by hand except
+the Go spelling of the sixteen stage names. -/
+
+section TieA
+open SrcFlow
+
+/-- Go name of the stage function (`func (p *pluginSingleContainer) <name>`). -/
+def goName : Stage → String
+  | .preWriteCall => "preWriteCall" | .postWriteCall => "postWriteCall"
+  | .preWriteReply => "preWriteReply" | .postWriteReply => "postWriteReply"
+  | .preWritePush => "preWritePush" | .postWritePush => "postWritePush"
+  | .preReadHeader => "preReadHeader" | .postReadCallHeader => "postReadCallHeader"
+  | .preReadCallBody => "preReadCallBody" | .postReadCallBody => "postReadCallBody"
+  | .postReadPushHeader => "postReadPushHeader" | .preReadPushBody => "preReadPushBody"
+  | .postReadPushBody => "postReadPushBody" | .postReadReplyHeader => "postReadReplyHeader"
+  | .preReadReplyBody => "preReadReplyBody" | .postReadReplyBody => "postReadReplyBody"
+
+/-- the plugin method the stage function invokes (`<Method>Plugin` is the asserted interface). -/
+def goMethod : Stage → String
+  | .preWriteCall => "PreWriteCall" | .postWriteCall => "PostWriteCall"
+  | .preWriteReply => "PreWriteReply" | .postWriteReply => "PostWriteReply"
+  | .preWritePush => "PreWritePush" | .postWritePush => "PostWritePush"
+  | .preReadHeader => "PreReadHeader" | .postReadCallHeader => "PostReadCallHeader"
+  | .preReadCallBody => "PreReadCallBody" | .postReadCallBody => "PostReadCallBody"
+  | .postReadPushHeader => "PostReadPushHeader" | .preReadPushBody => "PreReadPushBody"
+  | .postReadPushBody => "PostReadPushBody" | .postReadReplyHeader => "PostReadReplyHeader"
+  | .preReadReplyBody => "PreReadReplyBody" | .postReadReplyBody => "PostReadReplyBody"
+
+def stageOfName (n : String) : Option Stage := Stage.all.find? fun s => goName s == n
+
+/-- stage functions of plugin.go that are not per-message stages: connection level (modelled by
+    C16 / C07 / C13) and registration time (`Fatalf` on error). -/
+def connStages : List String := ["postAccept", "postDial", "postDisconnect"]
+def setupStages : List String := ["postListen", "postNewPeer", "postReg", "preNewPeer"]
+
+/-- one per-message stage call of the code: the stage, the container it EFFECTIVELY runs on
+    (a call on the context's current container resolves to the last container switch before it) and
+    whether the call site lets the verdict veto. -/
+abbrev Site := Stage × String × Option Bool
+
+/-- read a composed flow: `setcont` events switch the context's container, stage calls on `ctx` use
+    the current one, stage calls on the peer's container are `global`. -/
+def sitesFrom (cur : String) : List Ev → List Site
+  | [] => []
+  | e :: r =>
+    if e.kind == "setcont" then sitesFrom e.name r
+    else if e.kind == "stage" then
+      match stageOfName e.name with
+      | some s => (s, (if e.x == "ctx" then cur else e.x), vetoUse e.use) :: sitesFrom cur r
+      | none => sitesFrom cur r
+    else sitesFrom cur r
+
+def sites (f : List Ev) : List Site := sitesFrom "unset" f
+
+/-- the container switches of `binding` (it runs synchronously inside `ReadMessage`, before `bind*`). -/
+def bindingSwitches : List Ev := Gen.stages_handlerCtx_binding.filter fun e => e.kind == "setcont"
+
+/-- the code paths of one message, composed as the code composes them: the read loop, `binding`,
+    the `bind*` function of the message type, the `handle*` function of the message type. -/
+def codeCallee : List Ev :=
+  Gen.stages_session_startReadAndHandle ++ bindingSwitches ++ Gen.stages_handlerCtx_bindCall ++ Gen.stages_handlerCtx_handleCall
+def codePushee : List Ev :=
+  Gen.stages_session_startReadAndHandle ++ bindingSwitches ++ Gen.stages_handlerCtx_bindPush ++ Gen.stages_handlerCtx_handlePush
+def codeCallerRead : List Ev :=
+  Gen.stages_session_startReadAndHandle ++ bindingSwitches ++ Gen.stages_handlerCtx_bindReply ++ Gen.stages_handlerCtx_handleReply
+
+/-- probe 1: one global plugin that implements every stage, one CALL route and one PUSH route
+    without plugins of their own: a verdict at a stage changes the outcome of the exchange iff the
+    model lets that stage veto. -/
+def probe1 : Peer := (build [.appendLeft [⟨1, 65535⟩], .routeCall 0 0 [], .routePush 0 0 []]).getD Peer.new
+/-- probe 2: the same with a plugin `2` on each handler: plugin 2 fires at a stage iff the model
+    runs that stage on the handler's container. -/
+def probe2 : Peer :=
+  (build [.appendLeft [⟨1, 65535⟩], .routeCall 0 0 [⟨2, 65535⟩], .routePush 0 0 [⟨2, 65535⟩]]).getD Peer.new
+
+def okV : Verd := fun _ _ => 0
+def vetoAt (s : Stage) : Verd := fun _ t => if t = s then 7 else 0
+
+/-- the model's stage sequence of a flow (from the hooks that fire on probe 2 when nobody vetoes),
+    each with the container the model runs it on and whether the model lets it veto (`vetoes`). -/
+def modelSites (hooks : List Firing) (vetoes : Stage → Bool) : List Site :=
+  (dedup (hooks.map (·.2))).map fun s =>
+    (s, (if hooks.contains (2, s) then "handler" else "global"), some (vetoes s))
+
+def modelCallee : List Site :=
+  modelSites (calleeHooks (callee probe2 okV 0 0)) fun s => decide (callee probe1 (vetoAt s) 0 0 ≠ callee probe1 okV 0 0)
+def modelPushee : List Site :=
+  modelSites (pushee probe2 okV 0).pre fun s => decide (pushee probe1 (vetoAt s) 0 ≠ pushee probe1 okV 0)
+def modelCallerWrite : List Site :=
+  modelSites (callerWrite probe2 okV).fired fun s => decide (callerWrite probe1 (vetoAt s) ≠ callerWrite probe1 okV)
+def modelPusher : List Site :=
+  modelSites (pusher probe2 okV).fired fun s => decide (pusher probe1 (vetoAt s) ≠ pusher probe1 okV)
+def modelCallerRead : List Site :=
+  modelSites ((callerRead probe2 okV 0).hdr ++ (callerRead probe2 okV 0).fired)
+    fun s => decide (callerRead probe1 (vetoAt s) 0 ≠ callerRead probe1 okV 0)
+
+def stageContOf (l : List Site) : List (Stage × String) := l.map fun s => (s.1, s.2.1)
+def stageVetoOf (l : List Site) : List (Stage × Option Bool) := l.map fun s => (s.1, s.2.2)
+
+/-- every stage call of a flow names a stage the model knows (per-message or connection level). -/
+def knownStages (f : List Ev) : Bool :=
+  f.all fun e => e.kind != "stage" || (stageOfName e.name).isSome || connStages.contains e.name
+
+def watchedFlows : List (List Ev) :=
+  [Gen.stages_session_AsyncCall, Gen.stages_session_Push, Gen.stages_session_startReadAndHandle,
+   Gen.stages_handlerCtx_binding, Gen.stages_handlerCtx_bindCall, Gen.stages_handlerCtx_bindPush,
+   Gen.stages_handlerCtx_bindReply, Gen.stages_handlerCtx_handleCall, Gen.stages_handlerCtx_handlePush,
+   Gen.stages_handlerCtx_handleReply, Gen.stages_peer_ServeConn, Gen.stages_peer_serveListener_accept,
+   Gen.stages_peer_Dial, Gen.stages_peer_Dial_redial, Gen.stages_session_closeLocked,
+   Gen.stages_session_readDisconnected]
+
+/-- the stage calls of a flow: (stage function, container class, use class). -/
+def stageRows (f : List Ev) : List (String × String × String) :=
+  (f.filter fun e => e.kind == "stage").map fun e => (e.name, e.x, e.use)
+
+/-- the handler invocations of a `handle*` flow. -/
+def handlerCalls (f : List Ev) : List Ev := f.filter fun e => e.is "call" "handleFunc" || e.is "call" "unknownHandleFunc"
+
+/-- **Stage order and containers at the call sites = the model's (tie A).** For the sources as they
+    are now (no fact missing): along each of the five per-message paths — received CALL
+    (`startReadAndHandle` → `binding` → `bindCall` → `handleCall`), received PUSH, received REPLY,
+    `AsyncCall`, `Push` — the per-message stage functions are called in exactly the order in which
+    `Model/Plugin` (`calleeSteps`/`callee`, `pusheeSteps`/`pushee`, `replyReadSteps`/`callerRead`,
+    `callerWrite`, `pusher`) fires them, and each on the container the model uses: the peer's global
+    container up to and including the header stage, the handler's container from the "reset plugin
+    container" assignment of `bindCall`/`bindPush` on (the reply-writing stages included), the global
+    one everywhere on the calling side. In addition: `binding` sets the global container before it
+    dispatches to any `bind*`; `preReadHeader` precedes `ReadMessage`; `preWriteCall`/`preWritePush`
+    precede the socket write and `postWriteCall`/`postWritePush` follow it; in `handleCall` the
+    handler runs after `postReadCallBody` (under its OK verdict), before `preWriteReply`, which
+    precedes `writeReply`, which precedes `postWriteReply`; no per-message or connection-level stage
+    function is called anywhere outside the watched functions; every stage function of plugin.go is
+    one the model knows. Swapping two stage calls, calling one on the other container, moving the
+    container switch or adding a stage call elsewhere changes a regenerated list and this theorem
+    no longer checks. -/
+theorem C09_callsite_order :
+    Gen.stages_missing = [] ∧
+    stageContOf (sites codeCallee) = stageContOf modelCallee ∧
+    stageContOf (sites codePushee) = stageContOf modelPushee ∧
+    stageContOf (sites codeCallerRead) = stageContOf modelCallerRead ∧
+    stageContOf (sites Gen.stages_session_AsyncCall) = stageContOf modelCallerWrite ∧
+    stageContOf (sites Gen.stages_session_Push) = stageContOf modelPusher ∧
+    (keys Gen.stages_handlerCtx_binding).head? = some "setcont:global" ∧
+    before "stage:preReadHeader" "call:ReadMessage" (keys Gen.stages_session_startReadAndHandle) = true ∧
+    (keys (mainFlow Gen.stages_session_AsyncCall)) = ["stage:preWriteCall", "call:done", "call:write", "call:done", "stage:postWriteCall"] ∧
+    (keys (mainFlow Gen.stages_session_Push)).filter (· != "setcont:nil") = ["stage:preWritePush", "call:write", "stage:postWritePush"] ∧
+    (keys (mainFlow Gen.stages_handlerCtx_handleCall)) =
+      ["stage:postReadCallBody", "call:unknownHandleFunc", "call:handleFunc", "stage:preWriteReply", "call:writeReply",
+       "call:writeReply", "flag:set", "stage:postWriteReply"] ∧
+    (handlerCalls Gen.stages_handlerCtx_handleCall).all (fun e => e.guards.contains "postReadCallBody().OK()") = true ∧
+    (handlerCalls Gen.stages_handlerCtx_handlePush).all (fun e => e.guards.contains "postReadPushBody() == nil") = true ∧
+    (handlerCalls Gen.stages_handlerCtx_handleCall).length = 2 ∧ (handlerCalls Gen.stages_handlerCtx_handlePush).length = 2 ∧
+    watchedFlows.all knownStages = true ∧
+    Gen.stage_unwatched_sites.all (fun p => setupStages.contains p.2) = true ∧
+    sameSet Gen.stage_funcs (Stage.all.map goName ++ connStages ++ setupStages) = true := by
+  decide
+
+/-- non-vacuity: what the two sides of the first conjunct are. -/
+example : stageContOf modelCallee =
+    [(.preReadHeader, "global"), (.postReadCallHeader, "global"), (.preReadCallBody, "handler"),
+     (.postReadCallBody, "handler"), (.preWriteReply, "handler"), (.postWriteReply, "handler")] := by decide
+
+/-- **The vetoing stages are exactly those whose verdict the call site uses (tie A).** Along the
+    five per-message paths, a stage call's result is tested right away — the failing branch
+    returns (`fail-return`) or the code that follows, the handler included, runs only under the OK
+    verdict (`ok-guard`) — exactly for the stages at which a non-OK verdict changes the outcome of
+    the exchange in `Model/Plugin` (everything before the handler on the receiving side,
+    `preWriteCall`/`preWritePush`, and the three reply-reading stages); it is an expression
+    statement whose result is dropped exactly for the stages the model runs through `runAll` /
+    ignores (`preWriteReply`, `postWriteReply`, `postWriteCall`, `postWritePush`). The connection
+    hooks: `postAccept` and `postDial` veto (failing branch returns) at all four call sites,
+    `postDisconnect` is ignored at both. -/
+theorem C09_veto_sites :
+    Gen.stages_missing = [] ∧
+    stageVetoOf (sites codeCallee) = stageVetoOf modelCallee ∧
+    stageVetoOf (sites codePushee) = stageVetoOf modelPushee ∧
+    stageVetoOf (sites codeCallerRead) = stageVetoOf modelCallerRead ∧
+    stageVetoOf (sites Gen.stages_session_AsyncCall) = stageVetoOf modelCallerWrite ∧
+    stageVetoOf (sites Gen.stages_session_Push) = stageVetoOf modelPusher ∧
+    [Gen.stages_peer_ServeConn, Gen.stages_peer_serveListener_accept, Gen.stages_peer_Dial, Gen.stages_peer_Dial_redial].map stageRows =
+      [[("postAccept", "global", "fail-return")], [("postAccept", "global", "fail-return")],
+       [("postDial", "global", "fail-return")], [("postDial", "global", "fail-return")]] ∧
+    [Gen.stages_session_closeLocked, Gen.stages_session_readDisconnected].map stageRows =
+      [[("postDisconnect", "global", "ignored")], [("postDisconnect", "global", "ignored")]] := by
+  decide
+
+example : stageVetoOf modelCallee =
+    [(.preReadHeader, some true), (.postReadCallHeader, some true), (.preReadCallBody, some true),
+     (.postReadCallBody, some true), (.preWriteReply, some false), (.postWriteReply, some false)] := by decide
+example : stageVetoOf modelCallerRead =
+    [(.preReadHeader, some true), (.postReadReplyHeader, some true), (.preReadReplyBody, some true),
+     (.postReadReplyBody, some true)] := by decide
+
+/-- the row of `Gen.stage_loops` for a stage function. -/
+def loopRow (fn : String) : Option (String × String × String × String × String × String × String × String) :=
+  Gen.stage_loops.find? fun r => r.1 == fn
+
+/-- the loop shape `runStage` assumes: forward range over the receiver's list, the stage interface
+    asserted on each element, the asserted plugin's method invoked, the verdict tested at once and the
+    first non-OK verdict ends the loop AND the function — returned to the caller (`return v` …
+    `return nil`), or dropped when the function has no result (`return` … end). -/
+def earlyStop (iface method : String) (r : String × String × String × String × String × String × String × String) : Bool :=
+  r.2.1 == iface && r.2.2.1 == method && r.2.2.2.1 == "range $.plugins" &&
+  (r.2.2.2.2.1 == "!v.OK()" || r.2.2.2.2.1 == "v != nil") &&
+  ((r.2.2.2.2.2.1 == "return v" && r.2.2.2.2.2.2.1 == "return nil") ||
+   (r.2.2.2.2.2.1 == "return" && r.2.2.2.2.2.2.1 == "end"))
+
+/-- **Every stage function has the loop `runStage` models (tie A).** For each of the sixteen
+    per-message stages `s`, the function `goName s` of plugin.go iterates `p.plugins` in order,
+    type-asserts `<goMethod s>Plugin`, calls `<goMethod s>` on the plugins that implement it, and
+    returns at the first non-OK verdict (returning that verdict where the function has a result) —
+    the shape of `runStage`: in order, only the implementers, stop at the first non-OK. The same
+    holds for the connection-level `postAccept`, `postDial` (both with a deferred `recover`) and
+    `postDisconnect`. A loop that continues after a non-OK verdict, iterates another list or in
+    another order, or swallows the verdict changes the regenerated row and this theorem no longer
+    checks. -/
+theorem C09_stage_loops :
+    Gen.stages_missing = [] ∧
+    Stage.all.all (fun s => match loopRow (goName s) with
+      | some r => earlyStop (goMethod s ++ "Plugin") (goMethod s) r
+      | none => false) = true ∧
+    -- functions with a result return the verdict itself
+    (Stage.all.filter fun s => (loopRow (goName s)).any fun r => r.2.2.2.2.2.1 == "return") =
+      [.preWriteReply, .postWriteReply] ∧
+    [("postAccept", "PostAccept", "recover"), ("postDial", "PostDial", "recover"), ("postDisconnect", "PostDisconnect", "none")].all
+      (fun c => match loopRow c.1 with
+        | some r => earlyStop (c.2.1 ++ "Plugin") c.2.1 r && r.2.2.2.2.2.1 == "return v" && r.2.2.2.2.2.2.2 == c.2.2
+        | none => false) = true ∧
+    Gen.stage_loops.length = Gen.stage_funcs.length := by
+  decide
+
+/-- non-vacuity: the model's `runStage` stops at the first non-OK verdict and returns it. -/
+example : runStage (fun n _ => if n = 2 then 7 else 0) .preReadCallBody [⟨1, 65535⟩, ⟨2, 65535⟩, ⟨3, 65535⟩] =
+    ([(1, .preReadCallBody), (2, .preReadCallBody)], 7) := by decide
+
+end TieA
 
 end C09
 end Teleport
